@@ -50,7 +50,77 @@ def precondition(I, N, C, T):
 # ---------------------------------------------------------------------------
 # execution
 # ---------------------------------------------------------------------------
+def launch_plans_here(configs):
+    """Launch plans (node, input, result file, n_runs per task) of a list of
+    args-mode configurations, as computed in THIS interpreter."""
+    out = []
+    for cfg in configs:
+        o = execute_here(dict(cfg, mode='args'))
+        out.append(o['info'].get('launch'))
+    return out
+
+
+def execute_hashseed(plan):
+    """Every node of a real cluster run is its own Python interpreter with
+    its own hash seed.  The launch plan (which task gets which input, file
+    and trial count) is computed here and in fresh interpreters started
+    under other PYTHONHASHSEED values; it must be the same everywhere,
+    otherwise nodes disagree on the assignment and inputs get too many or
+    too few trials."""
+    import subprocess
+    import sys as _sys
+    sim = Sim(plan['seed'])
+    violations = []
+    here = launch_plans_here(plan['configs'])
+    path = f"/dev/shm/dst-hs-{os.getpid()}-{plan['seed'] % 10**8}.json"
+    with sbx._real_open(path, 'w') as f:
+        json.dump(plan['configs'], f)
+    try:
+        for hs in plan['hashseeds']:
+            env = dict(os.environ, PYTHONHASHSEED=str(hs),
+                       DST_NO_REEXEC='1')
+            p = subprocess.run(
+                [_sys.executable, os.path.join(runner.VERIF, 'dst',
+                                               'main.py'), PROP,
+                 '--launchplans', path], env=env, capture_output=True,
+                text=True, timeout=900)
+            there = None
+            for line in p.stdout.splitlines():
+                if line.startswith('LAUNCHPLANS '):
+                    there = json.loads(line[len('LAUNCHPLANS '):])
+            if there is None:
+                raise HarnessError('launch-plan subprocess failed: '
+                                   + p.stderr[-800:])
+            sim.probe('launch_plan_recomputed_under_other_hash_seed',
+                      len(there))
+            for cfg, a, b in zip(plan['configs'], here, there):
+                if json.loads(canon(a)) != json.loads(canon(b)):
+                    violations.append({
+                        'class': 'launch_plan_depends_on_interpreter_'
+                                 'hash_seed',
+                        'detail': {'config': {k: cfg[k] for k in (
+                            'n_inputs', 'n_nodes', 'n_cores', 'trials')},
+                            'hash_seeds': [os.environ.get(
+                                'PYTHONHASHSEED'), str(hs)]}})
+                    break
+            if violations:
+                break
+    finally:
+        try:
+            sbx._real_remove(path)
+        except OSError:
+            pass
+    sim.log.add('hashseed', 'result', [len(plan['configs']),
+                                       canon(violations)])
+    return {'violations': violations, 'fingerprint': sim.log.fingerprint(),
+            'states': [digest(['hashseed', len(plan['configs'])])],
+            'fault_counts': {}, 'probes': sim.probes, 'info': {},
+            'steps': 0, 'switches': 0, 'n_trials': 0, 'sim_seconds': 0.0}
+
+
 def execute_here(plan, keep_events=False):
+    if plan.get('mode') == 'hashseed':
+        return execute_hashseed(plan)
     sim = Sim(plan['seed'], keep_events=keep_events)
     sb = sbx.Sandbox(sim, bufsize=plan.get('bufsize', 8192))
     violations = []
@@ -238,6 +308,8 @@ def judge(plan, sim, sb, cl, ledger, node_results, violations, states, info,
     states.add(digest([I, N, C, T % max(1, (N * C) // I),
                        (N * C) % I, mode]))
     info['split'] = {sb.rel(k): v for k, v in per_input.items()}
+    info['launch'] = [[r['node'], sb.rel(r['args'][0]), sb.rel(r['args'][1]),
+                       r['args'][2]] for r in first]
     # a resubmitted node must launch exactly what it launched first
     for j in {r['node'] for r in cl.launched if r['round'] > 0}:
         a = [(r['args'][0], r['args'][1], r['args'][2])
@@ -433,9 +505,37 @@ def pack(summ):
     return summ
 
 
+def gen_hashseed_plan(seed):
+    rng = stream(seed, 'hashseed')
+    configs = []
+    while len(configs) < 16:
+        I, N, C = rng.randint(2, 5), rng.randint(2, 4), rng.randint(1, 4)
+        T = rng.randint(1, 40)
+        if not precondition(I, N, C, T):
+            continue
+        configs.append({'property': PROP, 'seed': H(seed, len(configs)),
+                        'mode': 'args', 'n_inputs': I, 'n_nodes': N,
+                        'n_cores': C, 'trials': T, 'cpu_count': C,
+                        'listing_perm': list(range(I))})
+    return {'property': PROP, 'seed': seed, 'mode': 'hashseed',
+            'configs': configs,
+            'hashseeds': [rng.randrange(1, 10**6), rng.randrange(1, 10**6)]}
+
+
+def run_hashseed_block(job):
+    summ = new_summary()
+    for s in job['seeds']:
+        plan = gen_hashseed_plan(s)
+        o = execute(plan)
+        absorb(summ, plan, o)
+    return pack(summ)
+
+
 def run_job(job):
     if job['kind'] == 'args':
         return run_args_block(job)
+    if job['kind'] == 'hashseed':
+        return run_hashseed_block(job)
     return run_full_block(job)
 
 
@@ -447,6 +547,9 @@ def make_jobs(tier, seed):
     for b in range(n_full // per):
         jobs.append({'kind': 'full', 'seeds': [
             H(seed, PROP, 'full', b * per + i) for i in range(per)]})
+    n_hs = 2 if tier == 'quick' else 12
+    jobs = [{'kind': 'hashseed', 'seeds': [H(seed, PROP, 'hs', i)]}
+            for i in range(n_hs)] + jobs
     for I in range(1, box['I'] + 1):
         for N in range(1, box['N'] + 1):
             jobs.append({'kind': 'args', 'I': I, 'N': N, 'box': box,
@@ -501,6 +604,17 @@ def signature(plan, v):
 
 
 def shrink(plan, want_sig, max_exec=150):
+    if plan.get('mode') == 'hashseed':
+        # keep the first configuration that shows it
+        for cfg in plan['configs']:
+            q = dict(plan, configs=[cfg])
+            try:
+                o = execute(q)
+            except HarnessError:
+                continue
+            if any(signature(q, v) == want_sig for v in o['violations']):
+                return q, 1
+        return plan, len(plan['configs'])
     best = copy.deepcopy(plan)
     n_exec = [0]
 
